@@ -858,6 +858,11 @@ func (nfs *Nfs) NFSPROC3_READDIR(args nfstypes.READDIR3args) nfstypes.READDIR3re
 		errRet(op, &reply.Status, nfstypes.NFS3ERR_INVAL)
 		return reply
 	}
+	if uint64(args.Cookie)%dir.DIRENTSZ != 0 {
+		// not a cookie this server issued; it would be read as an entry offset
+		errRet(op, &reply.Status, nfstypes.NFS3ERR_BAD_COOKIE)
+		return reply
+	}
 	dirlist := Readdir3(ip, op, args.Cookie, args.Count)
 	reply.Resok.Reply = dirlist
 	commitReply(op, &reply.Status)
@@ -876,6 +881,11 @@ func (nfs *Nfs) NFSPROC3_READDIRPLUS(args nfstypes.READDIRPLUS3args) nfstypes.RE
 	}
 	if ip.Kind != nfstypes.NF3DIR {
 		errRet(op, &reply.Status, nfstypes.NFS3ERR_INVAL)
+		return reply
+	}
+	if uint64(args.Cookie)%dir.DIRENTSZ != 0 {
+		// not a cookie this server issued; it would be read as an entry offset
+		errRet(op, &reply.Status, nfstypes.NFS3ERR_BAD_COOKIE)
 		return reply
 	}
 	dirlist := Ls3(ip, op, args.Cookie, args.Dircount, args.Maxcount)
